@@ -1007,6 +1007,8 @@ BASE_MODELS = [
     (R(r"^(Option|Result)::<.*>::and_then::<.*>$"), m_and_then),
     (R(r"^Option::<.*>::filter::<.*>$"), m_opt_filter),
     (R(r"^<Box<.*> as Drop>::drop$"), lambda ex, st, c, a, d: iter([(st, UNIT)])),
+    (R(r"^<(i|u)(\d+|size) as Ord>::(min|max)$|^(std|core)::cmp::(min|max)::<(i|u)(\d+|size)>$"), lambda ex, st, c, a, d: iter([(st, Sc(z3.simplify(
+        z3.If(a[0].e <= a[1].e, a[0].e, a[1].e) if "min" in c.rsplit("::", 1)[-1] or "::min::" in c else z3.If(a[0].e >= a[1].e, a[0].e, a[1].e)), a[0].ty))])),
     (R(r"^<(i|u)(\d+|size) as TryFrom<(i|u)(\d+|size)>>::try_from$"), m_int_try_from),
     (R(r" as Fn(Mut|Once)?<.*>>::call(_mut|_once)?$"), m_fn_call),
     (R(r"^core::num::<impl i\d+>::abs$|^core::num::<impl isize>::abs$"), m_int_abs),
